@@ -14,7 +14,7 @@ import z3
 from verifx import symx, loader
 from verifx.harness import Obligation
 from verifx.symx import frac_of
-from . import common, layouts
+from . import common, layouts, metmap
 
 PROPERTY = 'C14'
 LEVEL = 'model_checking'
@@ -233,4 +233,5 @@ def obligations(tier):
     if tier == 'thorough':
         obs.append(CutUamiv(1, 5, 1, 5, 2, 'EMISSIONS'))
         obs.append(CutUamiv(2, 3, 2, 2, 2, 'INSTANT'))
+    obs += metmap.cut_obligations(tier)
     return obs
